@@ -18,7 +18,8 @@ Definition kw_eqb (a b : kwargs) : bool :=
   list_eqb (fun p q => col_eqb (fst p) (fst q) && val_eqb (snd p) (snd q)) a b.
 Definition exn_eqb (a b : exn) : bool :=
   match a, b with
-  | XInvalid, XInvalid | XTypeError, XTypeError | XKeyError, XKeyError | XNotFound, XNotFound => true
+  | XInvalid, XInvalid | XTypeError, XTypeError | XKeyError, XKeyError | XNotFound, XNotFound
+  | XDuplicate, XDuplicate => true
   | _, _ => false
   end.
 Definition tbl_eqb (a b : list (Z * kwargs)) : bool :=
